@@ -220,12 +220,42 @@ def run(chk: Check, tier: str, seed: int) -> None:
     for rec in recs[:3] + recs[-2:]:
         chk.sample({"doc": show(rec["doc"]), "pointer": untext(rec["text"]), "spec_outcome": rec["out"]["ok"] or rec["out"]["kind"]})
     chk.exhaustive = True
+    for res in core.pmap(scalar_text_documents, [0]):
+        for sig, case, what in res:
+            chk.violation(sig, case, what)
     chk.rule = ("terminal states of MC_Pointer.tla: documents x (pointer of every node + every one-token mutation from MutTokens: wrong key, "
                 "look-alikes '+1',' 1','1_0','01',full-width/arabic digits,'1.0', index = len / len+1, '-', tokens under scalars and strings); "
                 "each resolved through pointer.resolve, JSONPointer.resolve, default=, exists, resolve_parent and every prefix, with "
                 "unicode_escape on and off (off only when the text has a backslash); non-trivial = pointer has >= 1 token; distinct by (document, text)")
     chk.assumptions += ["negative indices, '#'/'~'-prefixed tokens, leading blanks and integers beyond the index limit are documented extensions, outside the universe",
                         "object identity of the resolved node is observed with `is` by the harness"]
+
+
+def scalar_text_documents(_n: int) -> List[Tuple[str, Dict[str, Any], str]]:
+    """A document whose root is a scalar, given as JSON text: the root pointer resolves to the parsed value, any
+    other pointer fails (the specification's documents are handed over parsed; these few are the text form)."""
+    import jsonpath
+    from jsonpath import JSONPointer
+    from jsonpath.exceptions import JSONPointerResolutionError
+
+    out = []
+    for text in ("42", "true", "null", '"abc"', "1.5", "-0", " 7 ", '"[not, an, array"'):
+        want = json.loads(text)
+        for name, fn in (("pointer.resolve", lambda: jsonpath.pointer.resolve("", text)), ("JSONPointer.resolve", lambda: JSONPointer("").resolve(text))):
+            try:
+                got = fn()
+                if type(got) is not type(want) or got != want:
+                    out.append((f"{name}|scalar-json-text|root-pointer-yields-something-else", {"document_text": text, "got": repr(got)}, "root of a scalar text document"))
+            except BaseException as e:  # noqa: BLE001
+                out.append((f"{name}|scalar-json-text|raised-{exc_family(e)}", {"document_text": text}, type(e).__name__))
+        try:
+            v = JSONPointer("/0").resolve(text)
+            out.append(("JSONPointer.resolve|scalar-json-text|token-below-a-scalar-yielded-a-value", {"document_text": text, "got": repr(v)}, "below a scalar"))
+        except JSONPointerResolutionError:
+            pass
+        except BaseException as e:  # noqa: BLE001
+            out.append((f"JSONPointer.resolve|scalar-json-text|raised-{exc_family(e)}", {"document_text": text}, type(e).__name__))
+    return out
 
 
 def replay_file(case: Dict[str, Any]) -> int:
